@@ -205,11 +205,11 @@ func (h *hexBytes) UnmarshalJSON(b []byte) error {
 }
 
 type gLog struct {
-	Address hexBytes   `json:"address"`
-	Topics  []hexBytes `json:"topics"`
-	Data    hexBytes   `json:"data"`
-	BlockHash hexBytes `json:"blockHash"`
-	LogIndex  hexNum   `json:"logIndex"`
+	Address   hexBytes   `json:"address"`
+	Topics    []hexBytes `json:"topics"`
+	Data      hexBytes   `json:"data"`
+	BlockHash hexBytes   `json:"blockHash"`
+	LogIndex  hexNum     `json:"logIndex"`
 }
 
 type gReceipt struct {
@@ -225,13 +225,13 @@ type gReceipt struct {
 }
 
 type gResult struct {
-	StateRoot       hexBytes   `json:"stateRoot"`
-	TxRoot          hexBytes   `json:"txRoot"`
-	ReceiptsRoot    hexBytes   `json:"receiptsRoot"`
-	LogsHash        hexBytes   `json:"logsHash"`
-	LogsBloom       hexBytes   `json:"logsBloom"`
-	Receipts        []gReceipt `json:"receipts"`
-	Rejected        []struct {
+	StateRoot    hexBytes   `json:"stateRoot"`
+	TxRoot       hexBytes   `json:"txRoot"`
+	ReceiptsRoot hexBytes   `json:"receiptsRoot"`
+	LogsHash     hexBytes   `json:"logsHash"`
+	LogsBloom    hexBytes   `json:"logsBloom"`
+	Receipts     []gReceipt `json:"receipts"`
+	Rejected     []struct {
 		Index int    `json:"index"`
 		Error string `json:"error"`
 	} `json:"rejected"`
